@@ -1107,6 +1107,12 @@ func genC16(c *Ctx) {
 	// model correspondences on hostile inputs (Lean models proved total/bounded in Props/C16.lean)
 	c16ModelCorrespondence(c)
 	g := &c16G{r: c.R, k: c16LoadCorpus()}
+	// the built command-line tools on parameter-set material (c16_tool.go); a generator of its own so that the
+	// input stream of the rounds below does not depend on it
+	c16ToolFamily(c, &c16G{r: rand.New(rand.NewSource(c.Seed*7919 + 16)), k: g.k})
+	if os.Getenv("VERIF_C16_ONLYTOOL") != "" { // developer switch: only the tool-level family
+		return
+	}
 	g.extra = append(g.extra, c16ValidSyntaxCases(rand.New(rand.NewSource(c.Seed*104729+5)), c.N(1500, 15000))...)
 	_ = os.WriteFile(c.OutDir+"/warmup-lines.txt", []byte(strings.Join(c16WarmLines(), "\n")+"\n"), 0o644)
 	c.Count(fmt.Sprintf("corpus.avc.nalus=%d", len(g.k.avcNalus)))
